@@ -18,6 +18,8 @@ pub struct NoUnusedFragments<'a> {
 
 impl<'a> NoUnusedFragments<'a> {
     fn find_reachable_fragments(&self, from: &Scope<'a>, result: &mut HashSet<&'a str>) {
+        #[cfg(async_graphql_verif)]
+        crate::verif_hooks::count("no_unused_fragments");
         if let Scope::Fragment(name) = *from {
             if result.contains(name) {
                 return;
